@@ -507,7 +507,7 @@ def ommTleKeys : List (String × Option String) :=
 /-- `omm._dumps_kvn` (needs `data.tle`) -/
 def ommKvn (m : Omm) : R (List Line) := do
   let (center, rframe) ← frameOut m.frame
-  if ¬ m.hasTle then .error .attrError
+  if ommKvnNeedsTle ∧ ¬ m.hasTle then .error .attrError
   pure <| header "CCSDS_OMM_VERS" "2.0" ++ [.blank] ++
     metaKvn false m.name m.id center rframe m.scale [("MEAN_ELEMENT_THEORY", .s "SGP/SGP4")] ++
     [.blank, .kv "EPOCH" m.epoch none] ++ (ommElemKeys.zip m.elems).map (fun ((k, u), v) => Line.kv k v u) ++
@@ -840,8 +840,8 @@ def tdmMeta (scale : String) (path : List String) (set : List Obs) : List (Strin
   [("TIME_SYSTEM", Txt.s scale), ("START_TIME", (set.head?.map (·.epoch)).getD (.s "?")), ("STOP_TIME", (set.getLast?.map (·.epoch)).getD (.s "?"))] ++
   (participantKeys.zip parts).map (fun (k, p) => (k, Txt.s p)) ++
   [("MODE", .s "SEQUENTIAL"), ("PATH", .l idx)] ++
-  (if types.contains "Range" then [("RANGE_UNITS", Txt.s "km")] else []) ++
-  (if types.contains "Azimut" then [("ANGLE_TYPE", Txt.s "AZEL")] else [])
+  (if tdmRangeTrig.any types.contains then [("RANGE_UNITS", Txt.s "km")] else []) ++
+  (if tdmAngleTrig.any types.contains then [("ANGLE_TYPE", Txt.s "AZEL")] else [])
 
 def tdmSets (m : Tdm) : List (List String × List Obs) :=
   (dedup (m.obs.map (·.path))).map fun p => (p, m.obs.filter (·.path == p))
@@ -878,14 +878,14 @@ def tdmPath (mt : List (String × Txt)) : R (List String) := do
   | some _ => .error .valueError
   | none => .error .keyError
 
-/-- class chosen by the readers for a data key -/
+/-- class chosen by the readers for a data key (table regenerated from the `if key == …` chains) -/
 def tdmKind (key : String) (angleType : R String) : R String :=
-  if key = "RANGE" then .ok "Range"
-  else if key = "ANGLE_1" then do
-    if (← angleType) = "AZEL" then pure "Azimut" else .error .ccsdsError
-  else if key = "ANGLE_2" then do
-    if (← angleType) = "AZEL" then pure "Elevation" else .error .ccsdsError
-  else .error .ccsdsError
+  match tdmReadKinds.lookup key with
+  | some (cls, needsAngle) =>
+    if needsAngle then do
+      if (← angleType) = "AZEL" then pure cls else .error .ccsdsError
+    else .ok cls
+  | none => .error .ccsdsError
 
 structure TdmSt where
   mt : List (String × Txt) := []
@@ -970,5 +970,12 @@ def tdmFromXmlDict (data : Dict) : R (String × List (List Obs)) := do
   pure ((sets.getLast?.map (·.1)).getD "", sets.map (·.2))
 
 def loadTdmXml (e : Elem) : R (String × List (List Obs)) := do tdmFromXmlDict (← xml2dict e)
+
+/-- the loaded TDM handed to `dumps` again: a single set is a `MeasureSet`; a list of sets is accepted only
+if `detect2dump` / `tdm.dumps` know about it -/
+def tdmOfSets (r : String × List (List Obs)) : R Tdm :=
+  match r.2 with
+  | [set] => .ok { scale := r.1, obs := set }
+  | sets => if tdmDumpsAcceptsList then .ok { scale := r.1, obs := sets.flatten } else .error .typeError
 
 end BeyondVerif.Ccsds
